@@ -683,6 +683,8 @@ def violation_key(case, ev):
     iss = issues(case.g)
     if ev["e"] == "Norm":
         return "norm:weights-of-a-choice-point-do-not-sum-to-one"
+    if ev["e"] == "TopRule":
+        return "refuse:undefined-start-rule"
     if ev["refused"]:
         if "\n;" in case.text and (not ev["parsed"] or ev["via"] in ("read", "decoder")):
             return "parse:newline-before-semicolon"
@@ -727,6 +729,8 @@ WHAT = {
                                  "ignored at top level: a partial grammar with a different language is returned",
     "refuse:embedded-recursion-group": "recursion that ends a group/optional/closure/sub-rule which is itself followed "
                                        "by something is taken for right recursion and compiled into a loop",
+    "refuse:undefined-start-rule": "decoder_set_jsgf_string with the toprule parameter naming a rule that does not exist "
+                                   "compiles some other rule instead of refusing",
     "refuse:no-public-rule-read-string": "jsgf_read_string compiles the last rule of the hash table when no rule is public",
     "parse:newline-before-semicolon": "a line break immediately before ';' makes the grammar unparsable (scanner rule "
                                       "'.|\\n;' swallows the semicolon)",
@@ -857,7 +861,7 @@ def families(ctx, quick):
     dec = [g for n, g in zoo_ if not issues(g) & {"nopublic"}] + \
           [g for g in rnd if '"q"' not in json.dumps(g)][:15 if quick else 150]
     for i, g in enumerate(dec):                               # the decoder's route, dictionary words
-        add("decoder", g, dguises[i % len(dguises)], "d")
+        add("decoder", g, dguises[i % len(dguises)], "dt")
     layer_b_set, seen = [], set()
     b3 = size3 if not quick else rng.sample(size3, 18000) + [c.g for c in cases if c.eid.startswith(("size3", "guise"))]
     for g in core + b3 + undef + two + two1 + rnd + [g for n, g in zoo_]:
